@@ -165,6 +165,8 @@ OVERRIDES = [
     (r'^c13_(get_follows|has_key_follows|get_further)', dict(kind='attempt', tier='thorough', timeout=2400)),  # measured: > 11 min each (nested lookups through the rest-argument list)
     (r'^c22_level_', dict(functions=['SelectorSet::no_placeholder', 'Selector::no_placeholder', 'Selector::is_local_empty', 'CompoundSelector::no_placeholder', 'Pseudo::no_placeholder', 'Pseudo::name_in', 'pseudo::name_in (complete bodies, extracted unchanged; the type one level down is a stand-in whose no_placeholder result is chosen by the harness)'],
         bounded='lists of three complex selectors / two pseudo selectors, every combination of callee results (removed / matches anything / kept); pseudo names not, is, where, slotted, hover')),
+    (r'^c11_unitset_scale_to_general_branch', dict(functions=['UnitSet::scale_to (complete body, extracted unchanged; Unit / UnitSet / Div / powi are stand-ins)'],
+        bounded='one pair of two-unit sets, both directions, plus one dimension mismatch')),
     (r'^c16_assignment_updates', dict(functions=['Scope::set_variable (flag logic after the module case; extracted range)'], bounded=None)),
     (r'^c17_for_end_unit', dict(functions=['sass::SrcRange::evaluate (unit conversion of the end value, extracted range)'],
                                 bounded='seven concrete (value, unit, unit) triples')),
